@@ -29,7 +29,10 @@ def configs(quick=True):
            ('SVDLinear', {'features': 3, 'num_householder': 2}), ('SVDLinear', {'features': 4, 'num_householder': 4}),
            ('NaiveLinear', {'features': 3}), ('OneByOneConvolution', {'features': 3}),
            # a wide layer whose determinant (0.05^48 = 3.5e-63) is far below the float32 range while log|det| = -143.8 is ordinary
-           ('NaiveLinear', {'features': 48, 'scale': 0.05})]
+           ('NaiveLinear', {'features': 48, 'scale': 0.05}),
+           # frozen parameters (requires_grad_(False): fine-tuning another part of the model, EMA / manual in-place updates): every
+           # clause of the property is about parameter VALUES, so the same histories must behave the same
+           ('LULinear', {'features': 3, 'frozen': True}), ('SVDLinear', {'features': 3, 'num_householder': 2, 'frozen': True})]
     if not quick:
         out += [('LULinear', {'features': 5}), ('NaiveLinear', {'features': 5}), ('OneByOneConvolution', {'features': 4}),
                 ('LULinear', {'features': 1}), ('NaiveLinear', {'features': 1})]
@@ -85,6 +88,8 @@ class Runner:
         torch.manual_seed(seed)                       # constructors draw from the global RNG
         self.t = build(cls, cfg, using_cache)
         self._randomise(self.t, 0.2 if not cfg.get('scale') else 0.01 * cfg['scale'])   # (a prescribed scale is kept)
+        if cfg.get('frozen'):
+            self.t.requires_grad_(False)
         self.ref = build(cls, cfg, False)
         self.ref.train()
         self.dtype = torch.float32
